@@ -24,6 +24,29 @@ def run(ctx):
     rule_c(ctx, cr)
 
 
+MANGLER = ("<lang::ast::Ident as std::convert::From<(&lang::token::Ident, "
+           "&lang::token::Ident)>>::from")
+
+
+def rule_suffix_set(ctx, cr, rid):
+    """the DEF FN parameter mangler splits a parameter at the store's type suffixes $ ! # %"""
+    mg = cr.need_fn(MANGLER)
+    fam = [mg] + list(cr.closures_of(mg.path))
+    n_s = 0
+    for g in fam:
+        for c in g.calls_matching(r"<impl str>::(trim_end_matches|strip_suffix|ends_with|rfind)$"):
+            chars = set(re.findall(r"const:'(.)'", " ".join(g.describe(a) for a in c.args[1:])))
+            if not chars:
+                continue
+            n_s += 1
+            ctx.check(chars == set("$!#%"), rid, "mangle/suffix-set#%d" % n_s, c.span,
+                      "the suffix characters are $ ! # %",
+                      "the mangler splits the parameter at the characters %s, the variable store "
+                      "types a name by $ ! # %%: a parameter with the suffix %s keeps it in the "
+                      "middle of the mangled name and is typed by its first letter (DEFINT A-Z "
+                      "makes X! an integer, N%% holds 5.4)" % (sorted(chars), sorted(set("$!#%") ^ chars)))
+
+
 def rule_a(ctx, cr):
     mg = cr.need_fn("<lang::ast::Ident as std::convert::From<(&lang::token::Ident, "
                     "&lang::token::Ident)>>::from")
@@ -57,20 +80,7 @@ def rule_a(ctx, cr):
               "the mangler rewrites something that is not the parameter (%s): if the function "
               "name is shortened, FNA / FNA$ / FNA%% share one storage slot for same-named "
               "parameters and a nested call overwrites the caller's parameter" % bad)
-    # what counts as the parameter's suffix is what the variable store takes for a type suffix
-    n_s = 0
-    for g in fam:
-        for c in g.calls_matching(r"<impl str>::(trim_end_matches|strip_suffix|ends_with|rfind)$"):
-            chars = set(re.findall(r"const:'(.)'", " ".join(g.describe(a) for a in c.args[1:])))
-            if not chars:
-                continue
-            n_s += 1
-            ctx.check(chars == set("$!#%"), "C10.a", "mangle/suffix-set#%d" % n_s, c.span,
-                      "the suffix characters are $ ! # %",
-                      "the mangler splits the parameter at the characters %s, the variable store "
-                      "types a name by $ ! # %%: a parameter with the suffix %s keeps it in the "
-                      "middle of the mangled name and is typed by its first letter (DEFINT A-Z "
-                      "makes X! an integer)" % (sorted(chars), sorted(set("$!#%") ^ chars)))
+    rule_suffix_set(ctx, cr, "C10.a")
     # typed by the parameter: first and last piece come from the parameter, the middle does not
     pieces = None
     for g in fam:
